@@ -130,7 +130,12 @@ impl GetRecordContext {
             candidates,
             pending: HashMap::new(),
             queried: HashSet::new(),
-            found_records: if local_record { 1 } else { 0 },
+            // A local record is already accounted for by `config.known_records`; counting it
+            // here as well would let one local record stand for two towards the quorum.
+            found_records: {
+                let _ = local_record;
+                0
+            },
             records: VecDeque::new(),
         }
     }
